@@ -89,9 +89,11 @@ func (a *Alias) LLString() string {
 	}
 	buf.WriteString(" alias")
 	fmt.Fprintf(buf, " %s, ", a.Typ.ElemType)
-	if expr, ok := a.Aliasee.(constant.Expression); ok {
-		buf.WriteString(expr.Ident())
-	} else {
+	switch aliasee := a.Aliasee.(type) {
+	case *constant.ExprAddrSpaceCast, *constant.ExprBitCast, *constant.ExprGetElementPtr, *constant.ExprIntToPtr:
+		// The four expressions LLVM reads without a leading type.
+		buf.WriteString(aliasee.(constant.Expression).Ident())
+	default:
 		buf.WriteString(a.Aliasee.String())
 	}
 	if len(a.Partition) > 0 {
